@@ -323,6 +323,12 @@ fn header_slices(g: &mut Grid, thorough: bool) {
             lv.push((*h, s, s.len() + 1));
             lv.push((*h, s, if s.is_empty() { 7 } else { 0 }));
         }
+        if k % (3 * step) == 0 {
+            // recorded lengths of unusual magnitude (a sentinel, a sign bit): still publicly constructible
+            lv.push((*h, s, usize::MAX));
+            lv.push((*h, s, 1usize << 63));
+            lv.push((*h, s, isize::MAX as usize));
+        }
     }
     let fl: Vec<FatLen> = lv.iter().map(|(h, s, n)| Arc::from_header_and_slice(HeaderWithLength::new(*h, *n), s)).collect();
     for i in 0..lv.len() {
@@ -341,7 +347,7 @@ fn header_slices(g: &mut Grid, thorough: bool) {
     }
     // the bare sized header-slice type
     type Bare = HeaderSlice<HeaderWithLength<L>, [L; 2]>;
-    let bare: Vec<Bare> = heads.iter().flat_map(|h| [2usize, 5].into_iter().flat_map(move |n| [[L(b'a'), L(b'b')], [L(b'b'), L(b'a')]].into_iter().map(move |s| HeaderSlice { header: HeaderWithLength::new(*h, n), slice: s }))).collect();
+    let bare: Vec<Bare> = heads.iter().flat_map(|h| [2usize, 5, isize::MAX as usize, 1usize << 63, usize::MAX].into_iter().flat_map(move |n| [[L(b'a'), L(b'b')], [L(b'b'), L(b'a')]].into_iter().map(move |s| HeaderSlice { header: HeaderWithLength::new(*h, n), slice: s }))).collect();
     for a in &bare {
         for b in &bare {
             let case = format!("bare {:?} vs {:?}", a, b);
